@@ -87,6 +87,9 @@ def run(chk):
         ang_opts = [[0.0, 0.0, 0.0], [0.4 + g[0], -0.3, 0.2 * g[1]]] if d > 1 else [[0.0, 0.0, 0.0]]
         per_opts = [1.0, 7.3, [10.0, 20.0, 5.0], [40.0, 25.0, 10.0]]
         mode_opts = [2, 8, [4, 8, 2], [8, 6, 4]] if d < 3 else [2, [4, 8, 2], [8, 6, 4]] + ([8] if tier != "quick" else [])
+        if d == 3:  # lists shorter than the dimension are filled with their last entry
+            per_opts = per_opts + [[12.0, 20.0]]
+            mode_opts = mode_opts + [[4, 6]]
         for cls in models:
             for anis in anis_opts:
                 for ang in ang_opts:
@@ -94,7 +97,7 @@ def run(chk):
                         for mo in mode_opts:
                             for s in ([5, 20201 + seed] if tier == "quick" else [5, 20201 + seed, 77]):
                                 cases.append({"cls": cls, "dim": d, "anis": anis, "angles": ang, "period": per, "mode_no": mo, "seed": s, "len_scale": 0.2 * (per if np.isscalar(per) else per[0]) * (1 + 0.1 * g[2])})
-    cs, res = chk.run("periodic", case_periodic, cases, rule="model x dim x anisotropy (1, <1, >1) x rotation (none / generic) x period (scalar, per axis) x even mode counts (scalar, per axis) x seeds; shifts by +-1, +-2 periods along every main axis at lattice and off-grid points")
+    cs, res = chk.run("periodic", case_periodic, cases, rule="model x dim x anisotropy (1, <1, >1) x rotation (none / generic) x period (scalar, per axis, list shorter than dim) x even mode counts (scalar, per axis, list shorter than dim) x seeds; shifts by +-1, +-2 periods along every main axis at lattice and off-grid points")
     st = chk.groups["periodic"]["sub"]
     chk.control("half-period shift does not reproduce the field", st.get("half_period_reproduces", 0) < 0.2 * max(1, st.get("axes_checked", 1)), info=f"{st.get('half_period_reproduces', 0)} of {st.get('axes_checked', 0)} axis checks reproduced under a half-period shift")
     cfgs = [
